@@ -564,6 +564,7 @@ func (m *Machine) execSend(th *Thread, fr *Frame, x *ssa.Send) bool {
 	if th.wake != nil {
 		wk := th.wake
 		th.wake = nil
+		th.retry = false // the blocked operation completes here: the next operation is a new one
 		if wk.caseIdx == -2 {
 			panic(&goPanic{kind: "send on closed channel"})
 		}
@@ -603,6 +604,7 @@ func (m *Machine) execRecv(th *Thread, fr *Frame, x *ssa.UnOp) bool {
 	if th.wake != nil {
 		wk := th.wake
 		th.wake = nil
+		th.retry = false // the blocked operation completes here: the next operation is a new one
 		th.vc = m.vcJoin(th.vc, wk.vc)
 		finish(wk.val, wk.ok)
 		return false
@@ -644,6 +646,7 @@ func (m *Machine) execSelect(th *Thread, fr *Frame, x *ssa.Select) bool {
 	if th.wake != nil {
 		wk := th.wake
 		th.wake = nil
+		th.retry = false // the blocked operation completes here: the next operation is a new one
 		if wk.caseIdx == -2 {
 			panic(&goPanic{kind: "send on closed channel"})
 		}
